@@ -561,6 +561,13 @@ def r0_config(ctx):
         expect("inherits-ok", base + [(Fd("Extensions"), L(T(S("fr"), S("de")), T(S("de"), S("en"))))], is_ok(extensions=L(T(S("fr"), S("de")), T(S("de"), S("en")))), "Ok")
         expect("inherits-default-unlisted", [(Fd("Default"), S("en")), (Fd("Locales"), L(S("fr"))), (Fd("Extensions"), L(T(S("fr"), S("en"))))],
                is_ok(extensions=L(T(S("fr"), S("en")))), "Ok: the default locale is a known locale even when not listed")
+        # the table is handed on as configured: fallback is decided per key (C03), so a cycle or a self reference is not
+        # something the configuration may resolve (or prune) once and for all
+        cyc = L(T(S("de"), S("fr")), T(S("fr"), S("de")))
+        expect("inherits-cycle-kept", base + [(Fd("Extensions"), cyc)], is_ok(extensions=cyc), "Ok with both entries of the cycle kept")
+        cyc3 = L(T(S("de"), S("fr")), T(S("fr"), S("de")), T(S("it"), S("fr")))
+        expect("inherits-into-cycle-kept", [(Fd("Default"), S("en")), (Fd("Locales"), L(S("en"), S("fr"), S("de"), S("it"))), (Fd("Extensions"), cyc3)], is_ok(extensions=cyc3), "Ok with every entry kept")
+        expect("inherits-self-kept", base + [(Fd("Extensions"), L(T(S("fr"), S("fr"))))], is_ok(extensions=L(T(S("fr"), S("fr")))), "Ok with the entry kept")
         expect("inherits-unknown-target", base + [(Fd("Extensions"), L(T(S("fr"), S("it"))))], is_err("custom"), "Err: unknown locale")
         expect("inherits-unknown-source", base + [(Fd("Extensions"), L(T(S("it"), S("fr"))))], is_err("custom"), "Err: unknown locale")
         expect("inherits-default", base + [(Fd("Extensions"), L(T(S("en"), S("fr"))))], is_err("custom"), "Err: the default locale cannot inherit")
@@ -580,6 +587,8 @@ def r0_config(ctx):
         n2 += 1
         if got != C("Ok", C(var)):
             r.viol("R0:FieldVisitor#" + (text or "empty"), "the configuration key %r is read as %s, expected Field::%s" % (text, absint.fmt(got), var), file=CFG, line=vs.line)
+    if not [v for v in r.violations if "visit_map#inherits" in v.key]:
+        r.inst("CfgFileVisitor::visit_map#inherits-table", "valid `inherits` tables (chains, cycles, into a cycle, self reference, the unlisted default as target) reach ConfigFile.extensions entry for entry; unknown locales and an inheriting default are rejected")
     if not [v for v in r.violations if "visit_map" in v.key or "FieldVisitor" in v.key]:
         r.inst("CfgFileVisitor::visit_map", "%d field sequences / names: required fields, duplicates, unknown fields skipped, inherits validated against the locale list including the default" % n2)
 
